@@ -74,7 +74,7 @@ def parse_pairs(out, name):
     if not m:
         return None
     body = m.group(1)
-    pairs = [(int(a), int(b)) for a, b in re.findall(r"\(\s*(\d+)\s*,\s*(\d+)\s*\)", body)]
+    pairs = [(int(a), int(b)) for a, b in re.findall(r"\(\s*(\d+)\s*,\s*(\d+)(?:%[A-Za-z]+)?\s*\)", body)]
     if not pairs and re.search(r"\d", body):
         pairs = [(int(a), 0) for a in re.findall(r"\d+", body)]
     return pairs
@@ -269,14 +269,23 @@ def main():
     meta = json.load(open(os.path.join(outdir, "meta.json")))
     # 5. model evaluation inside Coq
     res, errs = ({}, [])
-    nres = cfg.get("results", 1)
+    kinds = cfg.get("results", ["K1"])
+    nres = len(kinds)
     if model_ok:
         res, errs = eval_cases(outdir, meta.get("files") or [], nres, log)
         for e in errs:
             broken.append({"kind": "K", "what": e})
-    k1 = res.get("r0", [])
-    k2 = res.get("r1", []) if nres > 1 else []
-    devs = res.get("r2", []) if nres > 2 else []
+    k1, k2, devs = [], [], []
+    for i, kd in enumerate(kinds):
+        lst = res.get("r%d" % i, [])
+        if kd == "K1":
+            k1 += lst
+        elif kd == "K2":
+            k2 += lst
+        elif kd == "DEV":
+            devs += lst
+        elif kd == "HYP" and lst:   # a case outside the hypotheses of the theorems
+            broken.append({"kind": "HYP", "what": "case #%d (info %d) is outside the hypotheses under which the theorems are stated" % (lst[0][0] * meta.get("per_shard", 1000) + lst[0][1], lst[0][2])})
     per = meta.get("per_shard", 1000)
     known, fixed = load_known(pid)
 
